@@ -509,8 +509,8 @@ func (s *LinearState) FindCachedRules(ctx *Context, event Map) (map[string]*Rule
 	return acc, nil
 }
 
-func (s *LinearState) Clear(ctx *Context) error {
-	Log(INFO, ctx, "LinearState.Clear", "name", s.Name)
+// remHooks runs the remHook for every fact (as IndexedState.remHooks does).
+func (s *LinearState) remHooks(ctx *Context) error {
 	if s.remHook != nil {
 		// As in IndexedState.Clear: everything is about to be
 		// removed, so run the remHook for every fact.
@@ -527,11 +527,19 @@ func (s *LinearState) Clear(ctx *Context) error {
 					// with one that has): nothing to do.
 					continue
 				}
-				Log(ERROR, ctx, "LinearState.Clear", "state", s.Name, "error", err,
+				Log(ERROR, ctx, "LinearState.remHooks", "state", s.Name, "error", err,
 					"id", id, "when", "remHook")
 				return err
 			}
 		}
+	}
+	return nil
+}
+
+func (s *LinearState) Clear(ctx *Context) error {
+	Log(INFO, ctx, "LinearState.Clear", "name", s.Name)
+	if err := s.remHooks(ctx); err != nil {
+		return err
 	}
 	_, err := s.store.Clear(ctx, s.Name)
 	// Maybe protect the store (above), too.
@@ -544,6 +552,10 @@ func (s *LinearState) Clear(ctx *Context) error {
 
 func (s *LinearState) Delete(ctx *Context) error {
 	Log(DEBUG, ctx, "LinearState.Delete", "name", s.Name)
+	// As in IndexedState.Delete: everything is about to be removed.
+	if err := s.remHooks(ctx); err != nil {
+		return err
+	}
 	err := s.store.Delete(ctx, s.Name)
 	// Maybe protect the store (above), too.
 	s.slock(ctx, false)
